@@ -42,6 +42,11 @@ def gen(rng, tier):
     for i, c in enumerate(cases):
         if i % 3 == 1 and not c.get("ViaPre"):
             c["Reassemble"] = True
+    # several structures assembled at the same time, each in a goroutine of its own in one process
+    for i in range(10 if tier == "quick" else 40):
+        c = core.case_from_struct(G.gen_frame(rng, max_cells=2), Weight=core.weights(i), Assemble=True, Concurrent=True)
+        c["kind"] += "+concurrent"
+        cases.append(c)
     # a frame of more than a thousand equations whose supported equations carry loads (own weight on the ground-floor
     # columns), assembled on one processor and on all of them: whichever goroutine schedule the run time picks
     import subprocess
